@@ -24,6 +24,7 @@ import (
 	"os"
 	"runtime"
 	"sort"
+	"strconv"
 	"strings"
 	"sync"
 	"time"
@@ -112,6 +113,9 @@ func (c *childState) watchdog() {
 		ph := int(c.prog.phase.Load())
 		if ph != phaseIdle {
 			limit := hangLimit
+			if v, err := strconv.Atoi(os.Getenv("VERIF_C03_HANG_S")); err == nil && v > 0 {
+				limit = time.Duration(v) * time.Second // self-test of the watchdog path only
+			}
 			kind := "compile-hang"
 			if ph == phaseExec {
 				limit, kind = execHangLimit, "exec-hang"
@@ -513,14 +517,14 @@ func (c *childState) executeOne(ci int, es *evalState, skipX map[int]bool, res *
 		}
 		res.Outcomes["instantiate:"+cl]++
 	}
-	if ts[0].Stopped == "" && ts[1].Stopped == "" {
+	if ts[0].Stopped == "" && ts[1].Stopped == "" && len(ts[0].Items) > 1 {
 		for _, it := range ts[0].Items[1:] {
 			if strings.HasPrefix(it.Label, "call:") {
 				cl := it.Class
 				if strings.HasPrefix(cl, "INTERNAL") {
 					cl = "internal"
 				}
-				res.Outcomes["call:"+cl]++
+				res.Timing["call:"+cl]++ // depends on which calls end by the deadline: reported, not compared
 			}
 		}
 	}
@@ -826,11 +830,10 @@ func main() {
 		Samples: samples.List(), Exhaustive: true, Outcomes: out, Bounds: bounds,
 		Extra: map[string]any{
 			"inputs": nInputs, "accepted_evaluations": tot.AcceptedEvals, "accepted_inputs": tot.AcceptedInputs,
-			"engine_executions": tot.Execs, "transcript_items": tot.Calls, "validity_checks": tot.ValidChecked,
-			"alloc_bisections": tot.Bisects, "max_batch_alloc_bytes": tot.MaxBatchAlloc,
+			"engine_executions": tot.Execs, "validity_checks": tot.ValidChecked,
 			"process_deaths_by_signature": tot.events, "violations_by_signature": sigCount,
 			"single_deviations_excluded_from_pairs": len(keys),
-			"timing_dependent_not_compared": tot.Timing,
+			"timing_dependent_not_compared": withExtra(tot.Timing, map[string]int64{"alloc_bisections": tot.Bisects, "transcript_items": tot.Calls, "max_batch_alloc_bytes": int64(tot.MaxBatchAlloc)}),
 		},
 	}, []string{
 		"decode and validation do not depend on the engine, and the engines do not depend on the feature set beyond what validation accepted: an accepted input is compiled by the optimizing compiler and executed under the first feature set (in the listed order) that accepts it; corpus seeds are compiled by both engines under every accepting set",
@@ -887,8 +890,9 @@ func reproduces(dir string, v viol) bool {
 			}
 		},
 		func(ev event) {
-			if sigOfEvent(ev) == v.Sig {
-				seen = true
+			got := sigOfEvent(ev)
+			if got == v.Sig || (strings.HasPrefix(v.Sig, "exec-fault:") && strings.HasPrefix(got, "exec-fault:")) {
+				seen = true // a fault in generated code need not print the same first line twice
 			}
 		})
 	return seen
@@ -910,7 +914,31 @@ func sigOfEvent(ev event) string {
 	case oom:
 		return "exec-alloc:" + eng + ":" + siteFromTrace(ev.Stderr)
 	}
-	return "exec-fault:" + eng + ":" + siteFromTrace(ev.Stderr)
+	return "exec-fault:" + eng + ":" + faultClass(ev.Stderr)
+}
+
+// faultClass names a process fault during execution by its first diagnostic line (goroutine traces of
+// a fault inside generated code are not stable enough to name a site).
+func faultClass(stderr string) string {
+	for _, l := range strings.Split(stderr, "\n") {
+		l = strings.TrimSpace(l)
+		switch {
+		case strings.HasPrefix(l, "panic: "):
+			return normalize(l, 80)
+		case strings.HasPrefix(l, "fatal error: "):
+			return normalize(l, 80)
+		case strings.Contains(l, "signal SIG"):
+			return normalize(l[strings.Index(l, "signal SIG"):], 40)
+		}
+	}
+	return "unknown"
+}
+
+func withExtra(m, extra map[string]int64) map[string]int64 {
+	for k, v := range extra {
+		m[k] = v
+	}
+	return m
 }
 
 func sumEvents(m map[string]int64) int64 {
